@@ -43,15 +43,21 @@ void bn_lag(bn_t *c, const bn_t *a, const bn_t b, size_t n) {
     if (n == 0) {
         /* The empty product is the constant polynomial 1. */
         bn_set_dig(c[0], 1);
+        RLC_FREE(t);
         return;
     }
+
+	if (t != NULL) {
+		for (i = 0; i <= n; i++) {
+			bn_null(t[i]);
+		}
+	}
 
 	RLC_TRY {
 		if (t == NULL) {
 			RLC_THROW(ERR_NO_MEMORY);
 		}
 		for (i = 0; i <= n; i++) {
-			bn_null(t[i]);
 			bn_new(t[i]);
 		}
 
@@ -78,8 +84,10 @@ void bn_lag(bn_t *c, const bn_t *a, const bn_t b, size_t n) {
 		RLC_THROW(ERR_CAUGHT);
 	}
 	RLC_FINALLY {
-		for (i = 0; i <= n; i++) {
-			bn_free(t[i]);
+		if (t != NULL) {
+			for (i = 0; i <= n; i++) {
+				bn_free(t[i]);
+			}
 		}
 		RLC_FREE(t);
 	}
